@@ -82,6 +82,11 @@ var scalarGoTypes = map[RK]reflect.Type{
 	RDecimal: reflect.TypeOf(datacodec.CqlDecimal{}), RCqlDuration: reflect.TypeOf(datacodec.CqlDuration{}),
 }
 
+// Zones are the fixed non-UTC locations in which time.Time sources are also built: a half-hour
+// offset east, a large offset west, and +14:00 (for most clock times the local date differs from
+// the UTC date).
+var Zones = []*time.Location{time.FixedZone("+05:30", 19800), time.FixedZone("-11:00", -39600), time.FixedZone("+14:00", 50400)}
+
 var ifaceType = reflect.TypeOf((*interface{})(nil)).Elem()
 var stringType = reflect.TypeOf("")
 
@@ -98,6 +103,10 @@ type Repr struct {
 	Tagged bool
 	// IP16: RIP/RBytes holding an IPv4 address in net.IP's 16-byte form.
 	IP16 bool
+	// Zone: RTime only: 0 = the time.Time is in UTC, 1..len(Zones) = the same instant in
+	// Zones[Zone-1] (the codecs document that time.Time values are normalized to UTC before
+	// encoding: the location must not change what is encoded).
+	Zone int
 	// Names: udt field names (RStruct, RStrMap), copied from the type at construction.
 	Names []string
 
@@ -314,6 +323,10 @@ func (r *Repr) String() string {
 		return "[]byte"
 	case RRunes:
 		return "[]rune"
+	case RTime:
+		if r.Zone > 0 {
+			return "time.Time(" + Zones[r.Zone-1].String() + ")"
+		}
 	}
 	return strings.ReplaceAll(scalarGoTypes[r.K].String(), " ", "")
 }
@@ -383,6 +396,15 @@ var (
 	scalarReprsTable [64][]*Repr
 )
 
+// zoned returns the time.Time representations in the non-UTC Zones.
+func zoned() []*Repr {
+	out := make([]*Repr, len(Zones))
+	for i := range Zones {
+		out[i] = &Repr{K: RTime, Zone: i + 1}
+	}
+	return out
+}
+
 func scalarReprs(k cqlref.Kind) []*Repr {
 	leafs := func(first RK, more ...[]RK) []*Repr {
 		out := []*Repr{Leaf(first)}
@@ -411,7 +433,7 @@ func scalarReprs(k cqlref.Kind) []*Repr {
 	case cqlref.Boolean:
 		return leafs(RBool, intKinds)
 	case cqlref.Date:
-		return leafs(RTime, intKinds, []RK{RString})
+		return append(leafs(RTime, intKinds, []RK{RString}), zoned()...)
 	case cqlref.Decimal:
 		return leafs(RDecimal)
 	case cqlref.Double:
@@ -423,9 +445,9 @@ func scalarReprs(k cqlref.Kind) []*Repr {
 	case cqlref.Inet:
 		return append(leafs(RIP, []RK{RBytes, RString}), &Repr{K: RIP, IP16: true}, &Repr{K: RBytes, IP16: true})
 	case cqlref.Time:
-		return leafs(RDur, intKinds, []RK{RTime, RString})
+		return append(leafs(RDur, intKinds, []RK{RTime, RString}), zoned()...)
 	case cqlref.Timestamp:
-		return leafs(RTime, intKinds, []RK{RString})
+		return append(leafs(RTime, intKinds, []RK{RString}), zoned()...)
 	case cqlref.Uuid, cqlref.Timeuuid:
 		return leafs(RUUID, []RK{RByte16, RBytes, RString})
 	case cqlref.Text, cqlref.Ascii:
